@@ -1,4 +1,5 @@
 import Ledger.Driver.Core
+import Ledger.Driver.Sched
 
 /-! `ldriver_sched`: correspondence driver for the Sched area (core-only). -/
-def main : IO Unit := Ledger.Driver.runDriver []
+def main : IO Unit := Ledger.Driver.runDriver Ledger.Driver.Sched.handlers
